@@ -42,6 +42,50 @@ def pack(chains, rng, dense):
     return S.scatter(chains, rng, gap=5.0)
 
 
+CROWDABLE = ("ARG", "LYS", "GLU", "GLN", "MET", "ILE", "LEU", "ASP", "ASN", "PHE", "TYR", "HIS", "TRP", "THR", "SER",
+             "VAL", "CYS")
+
+
+def h_sites(residue):
+    """Template positions of the side-chain hydrogens of a generated residue (template placed on its N, CA, C)."""
+    base = topo.base_of(residue["resn"])
+    if base is None:
+        return []
+    tpl = topo.template_coords(base)
+    have = dict(residue["atoms"])
+    if not all(k in have for k in ("N", "CA", "C")):
+        return []
+    from ..ref.rigid import kabsch
+    R, t = kabsch(np.array([tpl["N"], tpl["CA"], tpl["C"]]), np.array([have["N"], have["CA"], have["C"]]))
+    return [(n, R @ np.array(x) + t) for n, x in tpl.items() if n.startswith("H") and n not in ("H", "HA", "HA2", "HA3")]
+
+
+def crowd(chains, rng, prob):
+    """Obstacle waters right where side-chain hydrogens will be built (0.6-1.2 A from the hydrogen site, >= 1.9 A
+    from every input heavy atom): the added hydrogens clash, so the residue is debumped through several torsions."""
+    heavy = np.array([x for ch in chains for r in ch for n, x in r["atoms"] if not n.startswith("H")])
+    out = []
+    for ch in chains:
+        for r in ch:
+            if r["kind"] != "aa" or topo.base_of(r["resn"]) not in CROWDABLE or rng.random() > prob:
+                continue
+            sites = h_sites(r)
+            rng.shuffle(sites)
+            placed = 0
+            for _n, hpos in sites:
+                if placed >= rng.choice([1, 2, 3]):
+                    break
+                for _try in range(12):
+                    d = np.array([rng.gauss(0, 1) for _ in range(3)])
+                    o = hpos + d / np.linalg.norm(d) * rng.uniform(0.6, 1.2)
+                    pts = np.vstack([heavy] + [np.array([w["atoms"][0][1]]) for w in out]) if out else heavy
+                    if np.min(np.linalg.norm(pts - o, axis=1)) >= 1.9:
+                        out.append({"resn": "HOH", "kind": "wat", "atoms": [("O", o)]})
+                        placed += 1
+                        break
+    return out
+
+
 def synth(spec):
     rng = random.Random(spec["seed"])
     ff = spec["ff"]
@@ -81,7 +125,7 @@ def synth(spec):
     dense = rng.random() < p.get("dense_prob", 0.5)
     pack(chains, rng, dense)
     nwat = rng.choice(p.get("waters", [0, 0, 2, 5]))
-    wat = []
+    wat = crowd([c for c, k in zip(chains, kinds) if k == "aa"], rng, p["crowd_prob"]) if p.get("crowd_prob") else []
     for _ in range(nwat):
         for _try in range(20):
             ch = rng.choice(chains)
